@@ -2,3 +2,4 @@ pub mod num;
 pub mod rngs;
 pub mod store;
 pub mod tok;
+pub mod sess;
